@@ -7,6 +7,7 @@ fresh SimLoop and fresh fakes, so a run does not depend on its neighbours.
 """
 import concurrent.futures as cf
 import faulthandler
+import signal
 import json
 import multiprocessing
 import os
@@ -89,16 +90,29 @@ def match_known(known, prop, vj):
 # ---------------------------------------------------------------------------
 # worker
 
+SCENARIO_WALL_LIMIT = 30
+
+
+class _WallTimeout(BaseException):
+    pass
+
+
+def _on_alarm(signum, frame):
+    raise _WallTimeout()
+
+
 def _work(args):
     prop, seed, tier, start, count, deadline = args
     faulthandler.dump_traceback_later(600, exit=True)
+    signal.signal(signal.SIGALRM, _on_alarm)
     fam = family_of(prop)
     agg = {'n': 0, 'runs': 0, 'sigs': {}, 'probes': {}, 'sim_time': 0.0, 'events': 0,
            'status': {}, 'violations': [], 'harness': [], 'samples': [], 'faults': {}, 'nontrivial': 0,
            'modes': {}}
+    hung = False
     for index in range(start, start + count):
-        if _REAL_TIME() > deadline:
-            break
+        if _REAL_TIME() > deadline or hung:
+            break          # (after a hang this chunk is given up: whatever hung may have left its mark on the process)
         rng = rng_for(seed, prop, index)
         try:
             sc = fam.generate(prop, rng, seed, index, tier)
@@ -111,7 +125,21 @@ def _work(args):
             if vi and _REAL_TIME() > deadline + 20:
                 break          # (the variants of one scenario can be many: crash points, failing invocations)
             try:
-                out = fam.evaluate(prop, s2)
+                signal.setitimer(signal.ITIMER_REAL, SCENARIO_WALL_LIMIT)
+                try:
+                    out = fam.evaluate(prop, s2)
+                finally:
+                    signal.setitimer(signal.ITIMER_REAL, 0)
+            except _WallTimeout:
+                # step caps bound loop iterations, not the work inside one callback: a scenario of a dozen
+                # elements that keeps the CPU busy for a minute is not going to finish
+                if len(agg['violations']) < 12:
+                    agg['violations'].append({'index': index, 'scenario': s2, 'violations': [{
+                        'property': prop, 'oracle': '%s.hang' % prop, 'event': 0, 'info': {},
+                        'detail': 'the scenario was still running after %d s of wall-clock time (virtual time does not '
+                                  'advance inside a callback: unbounded work or a real hang)' % SCENARIO_WALL_LIMIT}]})
+                hung = True
+                break
             except Exception:
                 agg['harness'].append({'index': index, 'where': 'evaluate', 'tb': traceback.format_exc()[-1500:],
                                        'scenario': s2})
@@ -167,6 +195,12 @@ def shrink(prop, sc, target, known, budget=300, wall=60.0):
     cur_v = target
     used = 0
     improved = True
+    if target['oracle'].endswith('.hang'):
+        return cur, cur_v, 0
+    if still(sc) is None:
+        # the violation does not show when the scenario is run on its own in this process (it needed what an
+        # earlier scenario left behind in the worker): nothing to minimise against
+        return cur, cur_v, 1
     while improved and used < budget and _REAL_TIME() - t0 < wall:
         improved = False
         for cand in fam.shrink_candidates(cur):
@@ -187,7 +221,17 @@ def replay_file(path):
         sc = json.load(f)
     prop = sc['property']
     fam = family_of(prop)
-    out = fam.evaluate(prop, sc)
+    signal.signal(signal.SIGALRM, _on_alarm)
+    signal.setitimer(signal.ITIMER_REAL, SCENARIO_WALL_LIMIT)
+    try:
+        out = fam.evaluate(prop, sc)
+    except _WallTimeout:
+        import types
+        out = types.SimpleNamespace(violations=[], status='hang', events=0, res=None)
+        return sc, [{'property': prop, 'oracle': '%s.hang' % prop, 'event': 0, 'info': {},
+                     'detail': 'still running after %d s of wall-clock time' % SCENARIO_WALL_LIMIT}], out
+    finally:
+        signal.setitimer(signal.ITIMER_REAL, 0)
     return sc, [v.to_json() for v in out.violations], out
 
 
@@ -262,7 +306,7 @@ def run_check(prop, tier, seed, budget_s, workers=None, max_runs=None, write_evi
             if cls not in classes:
                 classes[cls] = (item, vj, k)
                 alternatives[cls] = []
-            elif len(alternatives[cls]) < 3:
+            elif len(alternatives[cls]) < 48:
                 alternatives[cls].append((item, vj))
     lines = []
     new_violations = 0
@@ -276,29 +320,43 @@ def run_check(prop, tier, seed, budget_s, workers=None, max_runs=None, write_evi
         if new_violations >= 4:
             new_violations += 1
             continue
-        sc_min, v_min, used = shrink(prop, item['scenario'], vj, known)
-        sc_min = dict(sc_min)
-        sc_min['property'] = prop
-        sc_min['expect'] = {'oracle': v_min['oracle'], 'event': v_min['event'], 'detail': v_min['detail']}
-        name = '%s-%d-%d-%s.json' % (prop, seed, item['index'], v_min['oracle'].split('.')[-1])
-        path = os.path.join(VERIF, rdir, name)
-        with open(path, 'w') as f:
-            json.dump(sc_min, f, indent=1, sort_keys=True)
-        ok, msg = replay_in_fresh_process(path)
-        for item2, vj2 in ([] if ok else alternatives.get(cls, [])):
-            # the violation needed something the process had done before (state leaking from run to run, which
-            # is a finding in itself): prefer an instance that a fresh process reproduces from its file alone
-            sc2, v2, used2 = shrink(prop, item2['scenario'], vj2, known)
-            sc2 = dict(sc2)
-            sc2['property'] = prop
-            sc2['expect'] = {'oracle': v2['oracle'], 'event': v2['event'], 'detail': v2['detail']}
-            path2 = os.path.join(VERIF, rdir, '%s-%d-%d-%s.json' % (prop, seed, item2['index'], v2['oracle'].split('.')[-1]))
-            with open(path2, 'w') as f:
-                json.dump(sc2, f, indent=1, sort_keys=True)
-            ok2, msg2 = replay_in_fresh_process(path2)
-            if ok2:
-                item, v_min, used, path, ok, msg = item2, v2, used2, path2, ok2, msg2
-                break
+        def minimise(item_, vj_):
+            sc_, v_, used_ = shrink(prop, item_['scenario'], vj_, known)
+            sc_ = dict(sc_)
+            sc_['property'] = prop
+            sc_['expect'] = {'oracle': v_['oracle'], 'event': v_['event'], 'detail': v_['detail']}
+            path_ = os.path.join(VERIF, rdir, '%s-%d-%d-%s.json' % (prop, seed, item_['index'], v_['oracle'].split('.')[-1]))
+            with open(path_, 'w') as f:
+                json.dump(sc_, f, indent=1, sort_keys=True)
+            ok_, msg_ = replay_in_fresh_process(path_)
+            return v_, used_, path_, ok_, msg_
+
+        v_min, used, path, ok, msg = minimise(item, vj)
+        if not ok:
+            # the violation needed something the worker process had done before (state leaking from one run to
+            # the next - a finding in itself): look for an instance of the class that a fresh process reproduces
+            # from its file alone (the unshrunk scenarios are tried first, that is cheap)
+            def try_raw(numbered):
+                num, (item2, vj2) = numbered
+                raw = dict(item2['scenario'])
+                raw['property'] = prop
+                raw['expect'] = {'oracle': vj2['oracle'], 'event': vj2['event'], 'detail': vj2['detail']}
+                tmp_path = os.path.join(VERIF, rdir, '%s-%d-%d-candidate%d.json' % (prop, seed, item2['index'], num))
+                with open(tmp_path, 'w') as f:
+                    json.dump(raw, f, indent=1, sort_keys=True)
+                try:
+                    return replay_in_fresh_process(tmp_path)[0]
+                finally:
+                    os.remove(tmp_path)
+            alts = alternatives.get(cls, [])
+            with cf.ThreadPoolExecutor(max_workers=16) as tp:
+                flags = list(tp.map(try_raw, enumerate(alts)))
+            for (item2, vj2), ok2 in zip(alts, flags):
+                if ok2:
+                    v2, used2, path2, ok3, msg3 = minimise(item2, vj2)
+                    if ok3:
+                        item, v_min, used, path, ok, msg = item2, v2, used2, path2, ok3, msg3
+                        break
         shrink_stats.append({'index': item['index'], 'oracle': v_min['oracle'], 'shrink_runs': used,
                              'replay_reproduced': ok})
         new_violations += 1
